@@ -419,7 +419,7 @@ fn check_app(args: &Args, rep: &mut Report, case: u64, app: &AppDesc, reqs: &[Re
         let built = catch(|| {
             if ok == 10 {
                 rep_tuple_hit();
-                hook::Router::new(build_with_tuple_api(&app, &order_fn(2, args.seed ^ case)).unwrap())
+                hook::Router::new(build_with_tuple_api(&app, &order_fn(2, args.seed ^ case), true).unwrap())
             } else {
                 hook::Router::new(build(&app, &order_fn(ok, args.seed ^ case)))
             }
